@@ -10,6 +10,10 @@
 #ifndef SIMKIT_HPP
 #define SIMKIT_HPP
 
+#include <thread>
+#include <mutex>
+#include <condition_variable>
+#include <exception>
 #include <cstdint>
 #include <cstddef>
 #include <cstdio>
@@ -94,7 +98,7 @@ namespace sim
         unsigned char byte() { return static_cast<unsigned char>(next() >> 24); }
     };
 
-    enum StreamTag : uint64_t { TAG_CFG = 0x636667, TAG_PLAN = 0x706c616e, TAG_ENV = 0x656e76 };
+    enum StreamTag : uint64_t { TAG_CFG = 0x636667, TAG_PLAN = 0x706c616e, TAG_ENV = 0x656e76, TAG_CALLERS = 0x63616c6c };
     inline Rng stream(uint64_t run_seed, uint64_t tag) { return Rng(mix(run_seed, tag, 0x51)); }
 
     /*********************
@@ -253,6 +257,7 @@ namespace sim
         std::vector<uint64_t> points;   // fault points seen per step (for enumeration), kind-specific by harness
         const char* cur_op = "-";       // for attribution of crashes
         std::string cur_qual;
+        unsigned callers = 0;           // >0: the steps of this run are issued from that many OS threads, one at a time
 
         void dig(uint64_t v)
         {
@@ -549,6 +554,7 @@ namespace sim
 
     // provided by each harness (in the translation unit that defines SIMKIT_MAIN)
     extern const char* const harness_name;
+    extern const bool caller_threads_enabled;      // false where a harness forks (one process per simulated installation)
     extern const char* const op_names[];
     extern const int op_count;
     extern const char* const fault_names[];   // indexed by fkind, MAX_FKIND entries or nullptr-terminated
@@ -634,6 +640,84 @@ namespace sim
             // other keys (class, signature, digest, comments) are for the driver and ignored here
         }
         return true;
+    }
+
+    /*********************
+     * caller threads
+     *********************/
+
+    // The actors of a plan are the library's callers.  In a share of the runs (decided by the run seed) every actor is a
+    // real OS thread: the simulator hands each step to the thread of its actor and waits for it, so exactly one thread
+    // runs at any time and the interleaving is the plan's step order - a schedule the seed decides, replayed exactly.
+    // State the library keeps per thread (or keyed by thread) instead of per object shows as a model mismatch.
+    struct Callers
+    {
+        struct Worker
+        {
+            std::mutex m;
+            std::condition_variable cv;
+            void (*fn)(void*) = nullptr;
+            void* arg = nullptr;
+            bool done = true;
+            std::exception_ptr err;
+        };
+        enum { N = 2 };                 // besides the main thread
+        Worker w[N];
+        bool started = false;
+
+        static void loop(Worker* x)
+        {
+            for (;;)
+            {
+                std::unique_lock<std::mutex> l(x->m);
+                x->cv.wait(l, [&] { return x->fn != nullptr; });
+                void (*fn)(void*) = x->fn;
+                void* arg = x->arg;
+                l.unlock();
+                std::exception_ptr e;
+                try { fn(arg); } catch (...) { e = std::current_exception(); }
+                l.lock();
+                x->err = e; x->fn = nullptr; x->done = true;
+                l.unlock();
+                x->cv.notify_all();
+            }
+        }
+        void run_on(unsigned t, void (*fn)(void*), void* arg)
+        {
+            if (t == 0) { fn(arg); return; }
+            if (!started)
+            {
+                for (int i = 0; i < N; ++i) std::thread(loop, &w[i]).detach();
+                started = true;
+            }
+            Worker& x = w[(t - 1) % N];
+            {
+                std::lock_guard<std::mutex> l(x.m);
+                x.fn = fn; x.arg = arg; x.done = false; x.err = nullptr;
+            }
+            x.cv.notify_all();
+            std::unique_lock<std::mutex> l(x.m);
+            x.cv.wait(l, [&] { return x.done; });
+            std::exception_ptr e = x.err;
+            x.err = nullptr;
+            l.unlock();
+            if (e) std::rethrow_exception(e);
+        }
+    };
+    inline Callers& callers() { static Callers* c = new Callers; return *c; }     // never destroyed: its threads never end
+
+    inline unsigned callers_of(uint64_t runseed) { return (mix(runseed, TAG_CALLERS, 0) & 3) == 0 ? 1 + Callers::N : 0; }
+
+    // runs f as the caller that issues step st
+    template <class F>
+    inline void as_caller(Run& run, const Step& st, F&& f)
+    {
+        if (!run.callers) { f(); return; }
+        // which caller: a function of the step's own content, so that it neither follows the object operated on nor
+        // changes when the minimiser drops other steps
+        unsigned t = static_cast<unsigned>(mix(TAG_CALLERS, st.a * 31 + st.b * 17 + st.c * 7 + st.d, static_cast<uint64_t>(st.op) * 5 + static_cast<uint64_t>(st.actor)) % run.callers);
+        if (t) stats().add("callers.steps_on_second_or_third_thread");
+        callers().run_on(t, [](void* a) { (*static_cast<typename std::remove_reference<F>::type*>(a))(); }, &f);
     }
 
     /*********************
